@@ -122,7 +122,13 @@ pub fn build_workload(seed: u64, run: u64, tier: &str, samples: &Samples) -> Sce
     } else {
         Spec::Le
     };
-    let ops = workload::gen_ops(&mut o, &img.bytes, &model, if thorough { 20 } else { 12 });
+    let ops = workload::gen_ops(
+        &mut o,
+        &img.bytes,
+        &model,
+        if thorough { 20 } else { 12 },
+        if thorough { 20 } else { 8 },
+    );
     let len = img.bytes.len() as u64;
     let mut recipe = img.recipe.clone();
     recipe.set("class_sig", J::u(img.class_sig));
@@ -158,6 +164,45 @@ pub fn check_c17(sc: &Scenario, base: &StreamRun, run: &StreamRun) -> Option<Vio
     })?;
     if first.clause != "residue" && first.clause != "pre-fault-divergence" {
         return Some(first);
+    }
+    // A PartialThenFail placement starts with a legal short read. If the same difference
+    // shows with the short read alone (no failure anywhere), the tree mishandles short
+    // reads — C07's subject — and the difference is not a residue of a failure.
+    if sc
+        .reader
+        .overrides
+        .iter()
+        .any(|o| matches!(o.fault, Fault::PartialThenFail { .. }))
+    {
+        let mut legal = sc.clone();
+        for o in legal.reader.overrides.iter_mut() {
+            if let Fault::PartialThenFail { k, .. } = o.fault {
+                o.fault = Fault::Short { k };
+            }
+        }
+        let only_legal = legal
+            .reader
+            .overrides
+            .iter()
+            .all(|o| matches!(o.fault, Fault::Short { .. }));
+        if !only_legal && first.clause == "pre-fault-divergence" {
+            // nothing has failed yet at the point of divergence: the other placements
+            // cannot have mattered
+            legal
+                .reader
+                .overrides
+                .retain(|o| matches!(o.fault, Fault::Short { .. }));
+        }
+        if only_legal || first.clause == "pre-fault-divergence" {
+            let lr = execute(&legal);
+            let differs = lr.steps.iter().any(|st| match base.steps.get(st.op_index) {
+                Some(b) if b.op_index == st.op_index => st.out != b.out,
+                _ => false,
+            });
+            if differs {
+                return None;
+            }
+        }
     }
     // Second opinion. "The answer it would have returned on a fault-free stream" is taken
     // for the history the stream actually went through: the same calls minus the ones a
